@@ -51,10 +51,14 @@ impl MergeCtx {
 
         match state {
             ExecutedState::Call(CallResult::Executed(ValueRef::Stream { generation, .. })) => Ok(*generation),
-            // such Aps are always preceded by Fold where corresponding stream could be used
-            // so it's been already checked that res_generation is well-formed
-            // and accessing 0th element is safe here
-            ExecutedState::Ap(ap_result) => Ok(ap_result.res_generations[0]),
+            // such Aps are usually preceded by Fold where corresponding stream could be used,
+            // but in data from other peers a fold lore may point to any Ap state, including
+            // a malformed one without generations
+            ExecutedState::Ap(ap_result) => ap_result
+                .res_generations
+                .first()
+                .copied()
+                .ok_or_else(|| KeeperError::NoStreamState { state: state.clone() }),
             state => Err(KeeperError::NoStreamState { state: state.clone() }),
         }
     }
